@@ -103,10 +103,20 @@ Fixpoint mset (k v : string) (m : list label) : list label :=
   | [] => [(k, v)]
   | (k', v') :: r => if String.eqb k k' then (k, v) :: r else (k', v') :: mset k v r
   end.
-Definition otlp_fill (attrs : list label) (m : list label) : list label :=
-  fold_left (fun m kv => mset (otlp_key (fst kv)) (snd kv) m) attrs m.
-(* attributes with string values; severity "" = none *)
-Definition otlp_map (resource scope record : list label) (severity : string) : list label :=
+(* SanitizeValue for string, bool and int values (doubles, bytes, arrays and key-value lists are not modelled) *)
+Inductive oval := OStr (s : string) | OBool (b : bool) | OInt (z : Z).
+Definition dec_z (z : Z) : string := if z <? 0 then String "-" (dec (- z)) else dec z.
+Definition otlp_value (v : oval) : string :=
+  match v with
+  | OStr s => s
+  | OBool true => "true"
+  | OBool false => "false"
+  | OInt z => dec_z z
+  end.
+Definition otlp_fill (attrs : list (string * oval)) (m : list label) : list label :=
+  fold_left (fun m kv => mset (otlp_key (fst kv)) (otlp_value (snd kv)) m) attrs m.
+(* severity "" = none *)
+Definition otlp_map (resource scope record : list (string * oval)) (severity : string) : list label :=
   let m := otlp_fill record (otlp_fill scope (otlp_fill resource [])) in
   if String.eqb severity "" then m else mset "level" severity m.
 
